@@ -484,7 +484,18 @@ def _replay_in_child(part, v, q):
         q.put((False, ['exception in replay: %r' % (e,)], traceback.format_exc()[-800:]))
 
 
-def replay_isolated(part, v, timeout=120):
+def replay_isolated(part, v, timeout=120, attempts=4):
+    """concrete replay in a child process; circuits iterates over sets of tasks/handlers in address order, so a
+    schedule-dependent counterexample is given a few attempts (fresh process each) before it counts as not reproduced"""
+    res = (False, ['no attempt'], [])
+    for _ in range(attempts):
+        res = _replay_once(part, v, timeout)
+        if res[0]:
+            return res
+    return res
+
+
+def _replay_once(part, v, timeout=120):
     ctx = mp.get_context('fork')
     q = ctx.Queue()
     p = ctx.Process(target=_replay_in_child, args=(part, v, q))
